@@ -596,10 +596,18 @@ fn make_case(r: &mut Rng, atoms: &[Atom], d: &Dims, doc: &str) -> Case {
     match if inplace { InMode::OneFile } else { d.input } {
         InMode::Stdin => stdin = db.to_vec(),
         InMode::OneFile => {
-            let n = r.ps(&["in0.md", "doc with space.md", "dé.md", "sub/in0.md"]).to_string();
-            files.push((n.clone().into_bytes(), Some(db.to_vec())));
-            file_args.push(n);
-            stdin = b"standard input must not be read\n".to_vec();
+            if !inplace && r.chance(1, 5) {
+                // a FILE argument that is a pipe
+                let n = String::from_utf8(STDIN_LINK.to_vec()).unwrap();
+                files.push((n.clone().into_bytes(), Some(db.to_vec())));
+                file_args.push(n);
+                stdin = db.to_vec();
+            } else {
+                let n = r.ps(&["in0.md", "doc with space.md", "dé.md", "sub/in0.md"]).to_string();
+                files.push((n.clone().into_bytes(), Some(db.to_vec())));
+                file_args.push(n);
+                stdin = b"standard input must not be read\n".to_vec();
+            }
         }
         InMode::Files => {
             let k = r.range(2, 4);
@@ -610,10 +618,14 @@ fn make_case(r: &mut Rng, atoms: &[Atom], d: &Dims, doc: &str) -> Case {
                 file_args.push(n);
             }
             if r.chance(1, 4) {
-                // the same file given twice
-                let again = file_args[0].clone();
-                s_input.extend_from_slice(files[0].1.as_ref().unwrap());
-                file_args.push(again);
+                // the same file given twice (only when the whole stays UTF-8: a part may end inside a character)
+                let mut twice = s_input.clone();
+                twice.extend_from_slice(files[0].1.as_ref().unwrap());
+                if std::str::from_utf8(&twice).is_ok() {
+                    let again = file_args[0].clone();
+                    s_input = twice;
+                    file_args.push(again);
+                }
             }
             stdin = b"standard input must not be read\n".to_vec();
         }
@@ -739,11 +751,19 @@ struct Outcome {
     spawn_error: Option<String>,
 }
 
+/// A FILE argument of this name is not a regular file: it is created as a symbolic link to
+/// `/dev/stdin` (a pipe: its metadata length is 0 although it has content) and the case's standard
+/// input carries its content.
+const STDIN_LINK: &[u8] = b"stdin-link.md";
+
 fn walk(dir: &Path, rel: &Path, out: &mut Vec<(Vec<u8>, Vec<u8>)>) {
     if let Ok(rd) = std::fs::read_dir(dir) {
         for e in rd.flatten() {
             let p = e.path();
             let rp = rel.join(e.file_name());
+            if e.file_type().map(|t| t.is_symlink()).unwrap_or(false) {
+                continue;
+            }
             if p.is_dir() {
                 if rel.as_os_str().is_empty() && e.file_name() == "xdg" {
                     continue;
@@ -772,6 +792,9 @@ fn write_file(dir: &Path, name: &[u8], content: &[u8]) {
 fn initial_files(c: &Case) -> Vec<(Vec<u8>, Vec<u8>)> {
     let mut v: Vec<(Vec<u8>, Vec<u8>)> = vec![];
     for (n, content) in &c.files {
+        if n.as_slice() == STDIN_LINK {
+            continue;
+        }
         if let Some(content) = content {
             if !v.iter().any(|(m, _)| m == n) {
                 v.push((n.clone(), content.clone()));
@@ -796,6 +819,9 @@ fn run_case(bin: &Path, dir: &Path, c: &Case) -> Outcome {
     let dflt = dir.join("xdg").join("comrak").join("config");
     for (n, content) in initial_files(c) {
         write_file(dir, &n, &content);
+    }
+    if c.files.iter().any(|(n, _)| n.as_slice() == STDIN_LINK) {
+        let _ = std::os::unix::fs::symlink("/dev/stdin", dir.join(os(STDIN_LINK)));
     }
     if c.cfg_default {
         if let Some(t) = &c.cfg_content {
